@@ -7,6 +7,7 @@ import (
 	"os"
 	"runtime"
 	"strings"
+	"sync/atomic"
 	"testing"
 	"time"
 
@@ -204,7 +205,13 @@ type env struct {
 	serverRev int
 	hello     ref.ServerHello
 	client    *ch.Client
+	// warm: an earlier exchange run on the fresh client before the case proper ("" = none):
+	// select | exception | insert | ping. The scripted server forgets it afterwards.
+	warm     string
+	warmDone atomic.Bool
 }
+
+var warmKinds = []string{"", "", "", "select", "exception", "insert", "ping"}
 
 // readTimeouts counts read-deadline expiries observed by the connection.
 func (e *env) readTimeouts() int { return e.conn.ReadTimeouts() }
@@ -250,9 +257,50 @@ func baseOptions(clientRev int, comp compMode) ch.Options {
 
 // connect performs the handshake over the simulated connection.
 func (e *env) connect(ctx context.Context, opt ch.Options) (*ch.Client, error) {
-	e.srv.Steps = append([]simnet.Step{e.helloStep()}, e.srv.Steps...)
+	steps := []simnet.Step{e.helloStep()}
+	method := byte(ref.MethodLZ4)
+	warmCol := ref.Column{Name: "w", T: ref.Fixed("UInt8", 1), Rows: []ref.Val{[]byte{7}}}
+	switch e.warm {
+	case "select":
+		steps = append(steps, itemStep(Item{Kind: "data", Block: &ref.Block{Columns: []ref.Column{warmCol}}}, simnet.AfterQuery(1), method, nil), itemStep(Item{Kind: "eos"}, nil, 0, nil))
+	case "exception":
+		steps = append(steps, itemStep(Item{Kind: "exception", Exc: []ref.Exception{{Code: 60, Name: "DB::Exception", Message: "warm-up"}}}, simnet.AfterQuery(1), 0, nil))
+	case "insert":
+		steps = append(steps, itemStep(Item{Kind: "data", Block: &ref.Block{Columns: []ref.Column{{Name: "w", T: warmCol.T}}}}, simnet.AfterQuery(1), method, nil), itemStep(Item{Kind: "eos"}, simnet.AfterInputEnd, 0, nil))
+	case "ping":
+		steps = append(steps, simnet.Step{Name: "pong", When: func(cs *ref.ClientStream) bool { return cs.Count(ref.PPing) > 0 }, Bytes: func(*ref.ClientStream) []byte { return []byte{ref.ServerPongCode} }})
+	}
+	if e.warm != "" {
+		// nothing of the case proper is emitted before the warm-up exchange is over and forgotten
+		steps = append(steps, simnet.Step{Name: "barrier", When: func(*ref.ClientStream) bool { return e.warmDone.Load() }})
+	}
+	e.srv.Steps = append(steps, e.srv.Steps...)
 	e.srv.Start()
-	return ch.Connect(ctx, e.conn, opt)
+	client, err := ch.Connect(ctx, e.conn, opt)
+	if err != nil || e.warm == "" {
+		return client, err
+	}
+	var werr error
+	switch e.warm {
+	case "select":
+		var res proto.Results
+		werr = client.Do(ctx, ch.Query{Body: "SELECT warm", Result: res.Auto()})
+	case "exception":
+		if werr = client.Do(ctx, ch.Query{Body: "SELECT * FROM nowhere"}); ch.IsErr(werr, 60) {
+			werr = nil
+		}
+	case "insert":
+		col := proto.ColUInt8{1, 2, 3}
+		werr = client.Do(ctx, ch.Query{Body: "INSERT INTO w VALUES", Input: proto.Input{{Name: "w", Data: &col}}})
+	case "ping":
+		werr = client.Ping(ctx)
+	}
+	if werr != nil || client.IsClosed() {
+		return nil, fmt.Errorf("harness: warm-up %s exchange failed: %v (closed=%v)", e.warm, werr, client.IsClosed())
+	}
+	e.srv.WithStream(func(cs *ref.ClientStream) { cs.ForgetQueries() })
+	e.warmDone.Store(true)
+	return client, nil
 }
 
 // leakedGoroutines returns stacks of goroutines that still run library code.
